@@ -175,9 +175,9 @@ func c09Reader(k *core.Case) {
 	c := k.Ctx
 	r := k.R
 	group := r.Bool()
-	placement := core.Pick(r, "idle-at-log-end", "mid-stream", "blocked-fetch", "cancel-blocked-fetch", "silent-broker", "unreachable-leader")
+	placement := core.Pick(r, "idle-at-log-end", "mid-stream", "paused-app", "blocked-fetch", "cancel-blocked-fetch", "silent-broker", "unreachable-leader")
 	if group {
-		placement = core.Pick(r, "idle-at-log-end", "mid-stream", "during-rebalance", "rebalance-slow-commit", "cancel-blocked-commit", "blocked-fetch", "silent-coordinator")
+		placement = core.Pick(r, "idle-at-log-end", "mid-stream", "paused-app", "during-rebalance", "rebalance-slow-commit", "cancel-blocked-commit", "blocked-fetch", "silent-coordinator")
 	}
 	net := fakenet.New()
 	cl := fakecluster.New(net)
@@ -265,6 +265,13 @@ func c09Reader(k *core.Case) {
 	var closing int32 // set before Close is called: the application stops committing (a commit on a closed reader only ends with its context)
 	var lastMsg kafka.Message
 	appDone := make(chan struct{})
+	resume := make(chan struct{})
+	resumeApp := sync.OnceFunc(func() { close(resume) })
+	defer resumeApp()
+	pauseAfter := int32(1)
+	if total > 4 {
+		pauseAfter = int32(r.Range(1, total/2))
+	}
 	go func() {
 		defer close(appDone)
 		for {
@@ -284,6 +291,11 @@ func c09Reader(k *core.Case) {
 				continue
 			}
 			n := atomic.AddInt32(&delivered, 1)
+			if placement == "paused-app" && n == pauseAfter {
+				// the application stops reading for a while: fetched messages pile up in the reader's queue
+				// and are still there when Close runs; the loop resumes once Close has returned
+				<-resume
+			}
 			if group && (n%3 == 0 || placement == "cancel-blocked-commit") && atomic.LoadInt32(&closing) == 0 {
 				cerr := rd.CommitMessages(ctx, m)
 				if placement == "cancel-blocked-commit" && cerr != nil && ctx.Err() != nil {
@@ -306,6 +318,11 @@ func c09Reader(k *core.Case) {
 	case "idle-at-log-end", "blocked-fetch":
 		waitDelivered(total)
 		time.Sleep(time.Duration(r.Intn(3000)) * time.Microsecond)
+	case "paused-app":
+		if total > 0 {
+			waitDelivered(int(pauseAfter))
+		}
+		time.Sleep(time.Duration(r.Range(2, 15)) * time.Millisecond) // the partition readers fill the queue
 	case "mid-stream":
 		waitDelivered(r.Intn(total + 1))
 	case "during-rebalance":
@@ -373,6 +390,7 @@ func c09Reader(k *core.Case) {
 		return
 	}
 	c.Max("max:reader_close_ms", time.Since(tClose).Milliseconds())
+	resumeApp()
 	if !cancelled {
 		select {
 		case <-appDone:
@@ -388,7 +406,16 @@ func c09Reader(k *core.Case) {
 			k.Viol("c09:blocked-fetch-after-close-wrong-error:"+placement, fmt.Sprintf("the FetchMessage call that was blocked when Close ran returned %v, want io.EOF", last.err), nil)
 		}
 	}
-	// use after close
+	// use after close: a call that started after Close had returned must fail with io.EOF, also when
+	// messages were still queued (the application loop above keeps calling FetchMessage until it fails)
+	mu.Lock()
+	for _, res := range results {
+		if closeEnd > 0 && res.t0 > closeEnd && res.err == nil {
+			k.Viol("c09:fetch-after-close", fmt.Sprintf("a FetchMessage call started at %d, after Reader.Close had returned at %d, delivered a message instead of failing with io.EOF", res.t0, closeEnd), map[string]any{"placement": placement, "group": group})
+			break
+		}
+	}
+	mu.Unlock()
 	if _, err := rd.FetchMessage(context.Background()); !errors.Is(err, io.EOF) {
 		k.Viol("c09:fetch-after-close", fmt.Sprintf("FetchMessage after Close returned %v, want io.EOF", err), nil)
 	}
